@@ -36,6 +36,31 @@ Theorem C08_solve_equations : forall k S z a r out, secant_ok S -> iq_ok S -> N2
 Proof. exact solve_all_equations. Qed.
 Print Assumptions C08_solve_equations.
 
+(* The dew-equation clause at full strength (no assumption on the root finders; for activity-coefficient packages too):
+   a computed dew temperature satisfies the dew equation on the normalised composition.
+   What is proved is C08_dew_equation_partial: the clause under the oracle contracts secant_ok / iq_ok (the solver returns a
+   root of the residual it was given, the last evaluation being at that root).  Those contracts - and weg_fix for the inner
+   x*gamma iteration - are exactly what the real flexsolve (aitken_secant / IQ_interpolation called with checkiter=False,
+   wegstein with maxiter 50 and no convergence check) fails to deliver for partially miscible systems with a
+   composition-dependent gamma: e.g. Water/Ammonia/Benzene z=(1,3,1), Dortmund, T=348.46 K: solve_Px returns a point with
+   1 - sum(x) = 0.66.  That is the registered known finding C08:dew-equation; its witness (props/C08.py WITNESSES) is
+   replayed by oracle() on every run.  C08_dew_equation_refuted shows inside the model that the clause is false as soon as
+   the root finder breaks its contract (the wrapper hands through whatever the solver returns). *)
+Definition C08_dew_equation_statement : Prop := forall k S z P T x, N2 z ->
+  solve_Tx k S z P = Ok (T, x) ->
+  qsum x == 1 /\ exists raw, x =v= raw /\ root_of (dew_T_error k S P (znorm z) (map (fun u => u * P) (znorm z))) T raw.
+Theorem C08_dew_equation_refuted : ~ C08_dew_equation_statement.
+Proof. exact dew_equation_needs_contract. Qed.
+Print Assumptions C08_dew_equation_refuted.
+Theorem C08_dew_equation_partial : forall k S z P T x, secant_ok S -> iq_ok S -> N2 z ->
+  solve_Tx k S z P = Ok (T, x) ->
+  qsum x == 1 /\ exists raw, x =v= raw /\ root_of (dew_T_error k S P (znorm z) (map (fun u => u * P) (znorm z))) T raw.
+Proof.
+  intros k S z P T x HS HI HN H.
+  exact (proj1 (proj2 (proj2 (solve_all_equations k S z P T x HS HI HN))) H).
+Qed.
+Print Assumptions C08_dew_equation_partial.
+
 (* listing the chemicals in another order permutes z, Psat, gamma, pcf: the residual is unchanged and the
    vapour fractions are permuted the same way *)
 Theorem C08_residual_perm : forall s k k' S S' P zoP zn buf buf' T v y v' y',
